@@ -763,3 +763,454 @@ fn check_lex(alpha: &[String], case: &Value, out: &mut CaseOut) -> Result<(), St
     }
     Ok(())
 }
+
+// ---------------------------------------------------------------------------------------------------------------
+// smoke run: seeded random strings and character-level mutations (a SIDE CHECK: the specification has no verdict
+// for these beyond the agreement law; totality on arbitrary Unicode is not decided by the specification)
+
+struct Rng(u64);
+impl Rng {
+    fn next(&mut self) -> u64 {
+        self.0 ^= self.0 << 13;
+        self.0 ^= self.0 >> 7;
+        self.0 ^= self.0 << 17;
+        self.0
+    }
+    fn below(&mut self, n: usize) -> usize {
+        (self.next() % n.max(1) as u64) as usize
+    }
+}
+const SOUP: [&str; 44] = [
+    "FIND", "WHERE", "MUTATE", "ASSERT", "DESCRIBE", "FILTER", "NOT", "BELIEF", "SLOT", "UPDATE", "SET", "FIELDS", "EXPORT", "CAPSULE",
+    "(", ")", "{", "}", "[", "]", "\"", "\\", "/", "//", "\n", " ", ",", ":", "?x", ":p", "|", "!", "&&", "||", "==", "-", "1e999", "0.5",
+    "true", "null", "id", "\u{0}", "🦀", "\u{a0}",
+];
+fn random_char(r: &mut Rng) -> char {
+    loop {
+        let c = match r.below(4) {
+            0 => r.below(0x80) as u32,
+            1 => r.below(0x800) as u32,
+            2 => r.below(0x10000) as u32,
+            _ => r.below(0x110000) as u32,
+        };
+        if let Some(ch) = char::from_u32(c) {
+            return ch;
+        }
+    }
+}
+fn smoke_text(seed: u64, i: u64, sentences: &[String]) -> String {
+    let mut r = Rng(seed.wrapping_mul(0x9E3779B97F4A7C15).wrapping_add(i.wrapping_mul(0xD1B54A32D192ED03)) | 1);
+    for _ in 0..4 {
+        r.next();
+    }
+    match i % 4 {
+        0 => (0..r.below(200)).map(|_| random_char(&mut r)).collect(),
+        1 => (0..r.below(60)).map(|_| SOUP[r.below(SOUP.len())]).collect::<Vec<_>>().join(if r.below(2) == 0 { " " } else { "" }),
+        2 => {
+            let mut chars: Vec<char> = sentences[r.below(sentences.len())].chars().collect();
+            for _ in 0..1 + r.below(4) {
+                let at = r.below(chars.len() + 1);
+                match r.below(5) {
+                    0 => {
+                        let piece: Vec<char> = SOUP[r.below(SOUP.len())].chars().collect();
+                        for (k, c) in piece.into_iter().enumerate() {
+                            chars.insert((at + k).min(chars.len()), c);
+                        }
+                    }
+                    1 if at < chars.len() => {
+                        chars.remove(at);
+                    }
+                    2 if at < chars.len() => chars[at] = random_char(&mut r),
+                    3 => chars.truncate(at),
+                    _ => {
+                        let end = (at + r.below(12)).min(chars.len());
+                        let slice: Vec<char> = chars[at.min(end)..end].to_vec();
+                        for (k, c) in slice.into_iter().enumerate() {
+                            chars.insert(at + k, c);
+                        }
+                    }
+                }
+            }
+            chars.into_iter().collect()
+        }
+        _ => {
+            let a: Vec<char> = sentences[r.below(sentences.len())].chars().collect();
+            let b: Vec<char> = sentences[r.below(sentences.len())].chars().collect();
+            let (i1, i2) = (r.below(a.len() + 1), r.below(b.len() + 1));
+            a[..i1].iter().chain(b[i2..].iter()).collect()
+        }
+    }
+}
+fn check_smoke(text: &str, i: u64, out: &mut CaseOut) {
+    let id = json!({"smoke": i});
+    let f = four(text);
+    let again = four(text);
+    let j = json_class(text);
+    out.parses += 9;
+    out.texts += 1;
+    for (name, a, b) in [("parse_kip", &f.kip, &again.kip), ("parse_kql", &f.kql, &again.kql), ("parse_kml", &f.kml, &again.kml), ("parse_meta", &f.meta, &again.meta)] {
+        if !a.same(b) {
+            out.push("nondeterministic", &id, "smoke", text, format!("{name}: {} then {}", a.brief(), b.brief()));
+        }
+        if let Obs::Panic(m) = a {
+            out.push("panic", &id, "smoke", text, format!("{name} panicked: {m}"));
+        }
+    }
+    if j == "panic" {
+        out.push("panic", &id, "smoke", text, "parse_json panicked".into());
+    }
+    if (j == "refused") != (f.kip.class() == "refused") {
+        out.push("agreement", &id, "smoke", text, format!("parse_json says {j}, parse_kip says {}", f.kip.class()));
+    }
+    if let Some(why) = agree(&f) {
+        out.push("agreement", &id, "smoke", text, why);
+    }
+    for (name, o) in [("parse_kip", &f.kip), ("parse_kql", &f.kql), ("parse_kml", &f.kml), ("parse_meta", &f.meta)] {
+        if let Obs::Ok(c) = o {
+            if name == "parse_kip" || !matches!(f.kip, Obs::Ok(_)) {
+                out.accepted += 1;
+                for (kind, detail) in accepted_checks(c) {
+                    out.push(kind, &id, "smoke", text, format!("{name}: {detail}"));
+                }
+            }
+        }
+    }
+}
+
+// ---------------------------------------------------------------------------------------------------------------
+// worker: one child process over a range of case indices
+
+fn env_num(name: &str, default: u64) -> u64 {
+    std::env::var(name).ok().and_then(|s| s.parse().ok()).unwrap_or(default)
+}
+
+enum Work {
+    Lex { alpha: Vec<String>, cases: Vec<Value> },
+    Tree { cx: Ctx, cases: Vec<Value> },
+    Smoke { seed: u64, n: u64, sentences: Vec<String> },
+}
+impl Work {
+    fn len(&self) -> usize {
+        match self {
+            Work::Lex { cases, .. } | Work::Tree { cases, .. } => cases.len(),
+            Work::Smoke { n, .. } => *n as usize,
+        }
+    }
+}
+
+fn load(mode: &str, file: &str) -> Result<Work, String> {
+    let f = std::fs::File::open(file).map_err(|e| format!("{file}: {e}"))?;
+    let mut lines = BufReader::new(f).lines();
+    let header: Value = serde_json::from_str(&lines.next().ok_or("empty case file")?.map_err(|e| e.to_string())?).map_err(|e| e.to_string())?;
+    let mut cases = Vec::new();
+    for l in lines {
+        let l = l.map_err(|e| e.to_string())?;
+        if l.trim().is_empty() {
+            continue;
+        }
+        cases.push(serde_json::from_str::<Value>(&l).map_err(|e| format!("bad case line: {e}"))?);
+    }
+    match mode {
+        "lex" => Ok(Work::Lex {
+            alpha: header["alpha"].as_array().ok_or("lex header without alpha")?.iter().map(|s| s.as_str().unwrap().to_string()).collect(),
+            cases,
+        }),
+        "tree" | "smoke" => {
+            let tables = Tables::new();
+            tables.check_against(&header["table"])?;
+            let mut bases = HashMap::new();
+            for c in &cases {
+                if let (Some(id), Some(toks)) = (c["id"].as_u64(), c["toks"].as_array()) {
+                    bases.insert(id, toks.clone());
+                }
+            }
+            if mode == "tree" {
+                return Ok(Work::Tree { cx: Ctx { tables, bases }, cases });
+            }
+            let mut sentences = Vec::new();
+            for c in &cases {
+                if c["verdict"] == "ok" {
+                    if let Some(toks) = c["toks"].as_array() {
+                        if toks.iter().all(|t| t[0] != "pad" && t[0] != "rung" && t[0] != "run") {
+                            let s = render(&tables, toks, Variant::Canon, 0)?;
+                            if s.len() < 2000 {
+                                sentences.push(s);
+                            }
+                        }
+                    }
+                }
+            }
+            if sentences.is_empty() {
+                return Err("no sentences for the smoke run".into());
+            }
+            Ok(Work::Smoke { seed: header["seed"].as_u64().unwrap_or(1), n: header["smoke_n"].as_u64().unwrap_or(0), sentences })
+        }
+        other => Err(format!("unknown mode {other}")),
+    }
+}
+
+fn worker(mode: &str, file: &str, from: usize, to: usize) -> i32 {
+    std::panic::set_hook(Box::new(|_| {}));
+    let work = match load(mode, file) {
+        Ok(w) => Arc::new(w),
+        Err(e) => {
+            println!("{}", json!({"tool_error": e}));
+            return 2;
+        }
+    };
+    let stack = env_num("C15_STACK_KB", 512) as usize * 1024;
+    let secs = env_num("C15_CASE_SECS", 20);
+    let batch = if mode == "tree" { 16 } else { 64 };
+    let to = to.min(work.len());
+    let mut total = CaseOut::default();
+    let mut done = 0u64;
+    let mut i = from;
+    while i < to {
+        let end = (i + batch).min(to);
+        let (tx, rx) = std::sync::mpsc::channel();
+        let w = work.clone();
+        let handle = std::thread::Builder::new()
+            .stack_size(stack)
+            .spawn(move || {
+                let mut out = CaseOut::default();
+                let stdout = std::io::stdout();
+                for k in i..end {
+                    {
+                        let mut so = stdout.lock();
+                        let _ = writeln!(so, "#{k}");
+                        let _ = so.flush();
+                    }
+                    let t0 = Instant::now();
+                    let r = match &*w {
+                        Work::Lex { alpha, cases } => check_lex(alpha, &cases[k], &mut out),
+                        Work::Tree { cx, cases } => {
+                            if cases[k].get("toks").is_some() {
+                                check_tree(cx, &cases[k], &mut out)
+                            } else {
+                                check_mut(cx, &cases[k], &mut out)
+                            }
+                        }
+                        Work::Smoke { seed, sentences, .. } => {
+                            let text = smoke_text(*seed, k as u64, sentences);
+                            check_smoke(&text, k as u64, &mut out);
+                            Ok(())
+                        }
+                    };
+                    out.max_ms = out.max_ms.max(t0.elapsed().as_millis());
+                    if let Err(e) = r {
+                        let _ = tx.send(Err(e));
+                        return;
+                    }
+                }
+                let _ = tx.send(Ok(out));
+            })
+            .expect("spawn case thread");
+        match rx.recv_timeout(Duration::from_secs(secs)) {
+            Ok(Ok(out)) => {
+                let _ = handle.join();
+                for m in &out.mismatches {
+                    println!("{m}");
+                }
+                total.parses += out.parses;
+                total.texts += out.texts;
+                total.accepted += out.accepted;
+                total.variants += out.variants;
+                total.max_ms = total.max_ms.max(out.max_ms);
+                total.mismatches.extend(out.mismatches);
+                done += (end - i) as u64;
+            }
+            Ok(Err(e)) => {
+                println!("{}", json!({"tool_error": e}));
+                return 2;
+            }
+            Err(std::sync::mpsc::RecvTimeoutError::Timeout) => {
+                // the case thread is stuck in the parser: report and let the supervisor resume after it
+                println!("{}", json!({"stuck": true, "secs": secs}));
+                println!("{}", json!({"partial": true, "cases": done, "parses": total.parses, "texts": total.texts, "accepted": total.accepted,
+                                      "variants": total.variants, "mismatches": total.mismatches.len(), "max_case_ms": total.max_ms as u64}));
+                let _ = std::io::stdout().flush();
+                std::process::exit(3);
+            }
+            Err(std::sync::mpsc::RecvTimeoutError::Disconnected) => {
+                println!("{}", json!({"partial": true, "cases": done, "parses": total.parses, "texts": total.texts, "accepted": total.accepted,
+                                      "variants": total.variants, "mismatches": total.mismatches.len(), "max_case_ms": total.max_ms as u64}));
+                let _ = std::io::stdout().flush();
+                std::process::exit(4);
+            }
+        }
+        i = end;
+    }
+    println!("{}", json!({"summary": true, "cases": done, "parses": total.parses, "texts": total.texts, "accepted": total.accepted,
+                          "variants": total.variants, "mismatches": total.mismatches.len(), "max_case_ms": total.max_ms as u64}));
+    0
+}
+
+// ---------------------------------------------------------------------------------------------------------------
+// supervisor: child processes over index ranges; an abnormal exit is a violation of the case in flight
+
+fn describe_case(mode: &str, lines: &[String], idx: usize) -> Value {
+    if mode == "smoke" {
+        return json!({"smoke": idx});
+    }
+    match lines.get(idx + 1).and_then(|l| serde_json::from_str::<Value>(l).ok()) {
+        Some(mut v) => {
+            if let Some(o) = v.as_object_mut() {
+                if let Some(t) = o.get("toks").and_then(|t| t.as_array()).map(|a| a.len()) {
+                    if t > 60 {
+                        o.remove("toks");
+                    }
+                }
+            }
+            v
+        }
+        None => json!({"index": idx}),
+    }
+}
+
+fn supervise(mode: &str, file: &str) -> i32 {
+    let exe = std::env::current_exe().expect("own path");
+    let lines: Vec<String> = std::fs::read_to_string(file).map(|s| s.lines().map(String::from).collect()).unwrap_or_default();
+    if lines.is_empty() {
+        println!("{}", json!({"tool_error": "empty case file"}));
+        return 2;
+    }
+    let n = if mode == "smoke" {
+        serde_json::from_str::<Value>(&lines[0]).ok().and_then(|h| h["smoke_n"].as_u64()).unwrap_or(0) as usize
+    } else {
+        lines.len() - 1
+    };
+    let jobs = env_num("C15_JOBS", 6).max(1) as usize;
+    let per = n.div_ceil(jobs).max(1);
+    let agg = Arc::new(std::sync::Mutex::new((json!({"cases": 0, "parses": 0, "texts": 0, "accepted": 0, "variants": 0, "mismatches": 0, "max_case_ms": 0}), 0u64, 0u64, false)));
+    let lines = Arc::new(lines);
+    let mut handles = Vec::new();
+    for j in 0..jobs {
+        let (lo, hi) = (j * per, ((j + 1) * per).min(n));
+        if lo >= hi {
+            continue;
+        }
+        let (exe, mode, file, agg, lines) = (exe.clone(), mode.to_string(), file.to_string(), agg.clone(), lines.clone());
+        handles.push(std::thread::spawn(move || {
+            let mut from = lo;
+            let mut restarts = 0;
+            while from < hi {
+                let mut child = std::process::Command::new(&exe)
+                    .args(["worker", &mode, &file, &from.to_string(), &hi.to_string()])
+                    .stdout(std::process::Stdio::piped())
+                    .stderr(std::process::Stdio::piped())
+                    .spawn()
+                    .expect("spawn worker");
+                let stderr = child.stderr.take().unwrap();
+                let err_thread = std::thread::spawn(move || {
+                    let mut tail: Vec<String> = Vec::new();
+                    for l in BufReader::new(stderr).lines().map_while(Result::ok) {
+                        tail.push(l);
+                        if tail.len() > 8 {
+                            tail.remove(0);
+                        }
+                    }
+                    tail.join("\n")
+                });
+                let mut last: Option<usize> = None;
+                let mut finished = false;
+                let mut stuck = false;
+                for l in BufReader::new(child.stdout.take().unwrap()).lines().map_while(Result::ok) {
+                    if let Some(rest) = l.strip_prefix('#') {
+                        last = rest.parse().ok();
+                        continue;
+                    }
+                    let Ok(v) = serde_json::from_str::<Value>(&l) else { continue };
+                    let mut a = agg.lock().unwrap();
+                    if v.get("summary").is_some() || v.get("partial").is_some() {
+                        for k in ["cases", "parses", "texts", "accepted", "variants", "mismatches"] {
+                            a.0[k] = json!(a.0[k].as_u64().unwrap() + v[k].as_u64().unwrap_or(0));
+                        }
+                        a.0["max_case_ms"] = json!(a.0["max_case_ms"].as_u64().unwrap().max(v["max_case_ms"].as_u64().unwrap_or(0)));
+                        finished = v.get("summary").is_some();
+                    } else if v.get("tool_error").is_some() {
+                        a.3 = true;
+                        println!("{l}");
+                    } else if v.get("stuck").is_some() {
+                        stuck = true;
+                    } else {
+                        println!("{l}");
+                    }
+                }
+                let status = child.wait().expect("wait worker");
+                let tail = err_thread.join().unwrap_or_default();
+                if finished && status.success() {
+                    break;
+                }
+                if agg.lock().unwrap().3 {
+                    return;
+                }
+                // abnormal end: the case in flight is the finding
+                let idx = last.unwrap_or(from);
+                let what = if stuck {
+                    "no result within the wall-clock bound (unbounded work)".to_string()
+                } else {
+                    format!("the process died while parsing: {status} ({})", tail.lines().filter(|l| !l.trim().is_empty()).collect::<Vec<_>>().join(" | "))
+                };
+                {
+                    let mut a = agg.lock().unwrap();
+                    a.1 += 1;
+                    a.0["mismatches"] = json!(a.0["mismatches"].as_u64().unwrap() + 1);
+                    println!("{}", json!({"mismatch": if stuck { "timeout" } else { "crash" }, "case": describe_case(&mode, &lines, idx), "variant": "-", "text": "", "detail": what}));
+                }
+                from = idx + 1;
+                restarts += 1;
+                if restarts > 300 {
+                    let mut a = agg.lock().unwrap();
+                    a.2 += (hi - from) as u64;
+                    break;
+                }
+            }
+        }));
+    }
+    for h in handles {
+        let _ = h.join();
+    }
+    let a = agg.lock().unwrap();
+    if a.3 {
+        return 2;
+    }
+    let mut s = a.0.clone();
+    s["summary"] = json!(true);
+    s["crashes"] = json!(a.1);
+    s["skipped_after_too_many_crashes"] = json!(a.2);
+    s["planned"] = json!(n);
+    println!("{s}");
+    0
+}
+
+fn main() {
+    let a: Vec<String> = std::env::args().collect();
+    let code = match a.get(1).map(String::as_str) {
+        Some("run") if a.len() >= 4 => supervise(&a[2], &a[3]),
+        Some("worker") if a.len() >= 6 => worker(&a[2], &a[3], a[4].parse().unwrap_or(0), a[5].parse().unwrap_or(usize::MAX)),
+        Some("text") if a.len() >= 3 => {
+            // render the cases of a file (debugging aid): drive_kip text <cases.jsonl>
+            match load("tree", &a[2]) {
+                Ok(Work::Tree { cx, cases }) => {
+                    for c in cases.iter().filter(|c| c.get("toks").is_some()) {
+                        match render(&cx.tables, c["toks"].as_array().unwrap(), Variant::Canon, 0) {
+                            Ok(t) => println!("{} {} {} :: {}", c["id"], c["fam"], c["verdict"], t.chars().take(300).collect::<String>()),
+                            Err(e) => println!("{} render error {e}", c["id"]),
+                        }
+                    }
+                    0
+                }
+                Ok(_) => 2,
+                Err(e) => {
+                    println!("{e}");
+                    2
+                }
+            }
+        }
+        _ => {
+            eprintln!("usage: drive_kip run lex|tree|smoke <cases.jsonl>");
+            2
+        }
+    };
+    std::process::exit(code);
+}
